@@ -6,3 +6,6 @@ export CARGO_NET_OFFLINE=true
 unset RUSTFLAGS || true
 cd "$HERE/harness"
 cargo build --release --offline
+# the real fst binary (guard off) for the free-running part of C19
+cd /repo
+CARGO_TARGET_DIR="$HERE/harness/target/fstbin" cargo build --release --offline -p fst-bin
